@@ -92,9 +92,11 @@ Proof.
     + now rewrite IHn.
 Qed.
 
-Lemma check_child_none t new : 0 <= num t -> check_child t new = None <-> has_name (children t) new = false.
+Lemma check_child_none t new : 0 <= num t -> header_bad t = false -> table_bad t = false ->
+  check_child t new = None <-> has_name (children t) new = false.
 Proof.
-  intros Hn. unfold check_child, children. destruct (Z.eqb_spec (num t) 0) as [E|E].
+  intros Hn Hhb Htb. unfold check_child, children. rewrite Hhb, Htb, andb_false_r.
+  destruct (Z.eqb_spec (num t) 0) as [E|E].
   - rewrite E. simpl. tauto.
   - pose proof (find_name_spec (Z.to_nat (num t)) (ents t) new) as H.
     destruct (find_name (ents t) (Z.to_nat (num t)) new) as [i|].
@@ -118,11 +120,19 @@ Record WFc (t : ctab) : Prop := mkWFc {
 Lemma empty_WFc : WFc empty_tab.
 Proof. constructor; simpl; auto; lia. Qed.
 
+Lemma WFc_ok t : WFc t -> header_bad t = false /\ table_bad t = false.
+Proof.
+  intros [Hn Hl Hc]. unfold header_bad, table_bad. split.
+  - destruct (Z.gtb_spec (num t) (cap t)); auto; lia.
+  - rewrite Hl. destruct (Z.eqb_spec (Z.of_nat (Z.to_nat (cap t))) (cap t)); auto; lia.
+Qed.
+
 Lemma add_child_spec t nm child : WFc t -> cap t < FLOAT_EXACT ->
   exists t', add_child t nm child = Some (COk t') /\ WFc t' /\ children t' = children t ++ [(nm, child)] /\
              cap t <= cap t' /\ cap t' <= Z.max LIST_CHUNK (cap t * 3 / 2) /\ (cap t' = cap t \/ num t = cap t).
 Proof.
-  intros [Hn Hl Hc] Hsmall. unfold add_child, children. unfold LIST_CHUNK, FLOAT_EXACT in *.
+  intros HW Hsmall. destruct (WFc_ok t HW) as [Hhb Htb]. destruct HW as [Hn Hl Hc].
+  unfold add_child, children. rewrite Hhb, Htb, andb_false_r. unfold LIST_CHUNK, FLOAT_EXACT in *.
   destruct (Z.leb_spec (cap t) (num t)) as [Hfull|Hroom].
   - assert (Heq : num t = cap t) by lia.
     destruct (Z.leb_spec 16777216 (cap t)); [lia|].
@@ -157,7 +167,8 @@ Lemma del_child_spec t child : WFc t ->
   | CErr _ => remove_first (children t) child = children t
   end.
 Proof.
-  intros [Hn Hl Hc]. unfold del_child, children.
+  intros HW. destruct (WFc_ok t HW) as [Hhb Htb]. destruct HW as [Hn Hl Hc]. unfold del_child, children.
+  rewrite Hhb, Htb. cbn [orb].
   pose proof (find_ptr_spec (Z.to_nat (num t)) (ents t) child) as H.
   destruct (find_ptr (ents t) (Z.to_nat (num t)) child) as [i|]; auto.
   destruct H as (A & B & C). cbn [cap num ents].
@@ -195,11 +206,11 @@ Lemma rename_child_spec t old new : WFc t ->
   | CErr _ => has_name (children t) new = true \/ rename_first (children t) old new = children t
   end.
 Proof.
-  intros [Hn Hl Hc]. unfold rename_child.
+  intros HW. destruct (WFc_ok t HW) as [Hhb Htb]. destruct HW as [Hn Hl Hc]. unfold rename_child.
   destruct (check_child t new) as [x|] eqn:En.
-  - left. destruct (has_name (children t) new) eqn:E; auto. apply check_child_none in E; [congruence|lia].
-  - apply check_child_none in En; [|lia].
-    unfold check_child. destruct (Z.eqb_spec (num t) 0) as [E0|E0].
+  - left. destruct (has_name (children t) new) eqn:E; auto. apply check_child_none in E; auto; [congruence|lia].
+  - apply check_child_none in En; auto; [|lia].
+    unfold check_child. rewrite Hhb, Htb, andb_false_r. destruct (Z.eqb_spec (num t) 0) as [E0|E0].
     + right. unfold children. rewrite E0. reflexivity.
     + pose proof (find_name_spec (Z.to_nat (num t)) (ents t) old) as H.
       destruct (find_name (ents t) (Z.to_nat (num t)) old) as [i|] eqn:Ei.
@@ -290,14 +301,14 @@ Proof. unfold good_name. rewrite andb_true_iff. intros [_ H]. now apply Nat.leb_
 Lemma cstep_inv t K p : CInv t K -> 0 <= K < 8000000 -> good_op p = true ->
   exists t', cstep t p = Some t' /\ CInv t' (K + 1) /\ children t' = ideal_cstep (children t) p.
 Proof.
-  intros [HW Hnm Hnd Hn Hc] HK Hg. pose proof (wfc_num _ HW) as Hnum. pose proof (eq_refl : LIST_CHUNK = 8) as HLC.
+  intros [HW Hnm Hnd Hn Hc] HK Hg. pose proof (wfc_num _ HW) as Hnum. destruct (WFc_ok t HW) as [Hhb Htb]. pose proof (eq_refl : LIST_CHUNK = 8) as HLC.
   destruct p as [nm child|child|old new]; cbn [cstep ideal_cstep good_op] in *.
   - (* add *)
     destruct (check_child t nm) as [x|] eqn:Ech.
     + assert (Hh : has_name (children t) nm = true).
-      { destruct (has_name (children t) nm) eqn:E; auto. apply check_child_none in E; [congruence|lia]. }
+      { destruct (has_name (children t) nm) eqn:E; auto. apply check_child_none in E; auto; [congruence|lia]. }
       rewrite Hh. exists t. split; auto. split; auto. constructor; auto; lia.
-    + apply check_child_none in Ech; [|lia]. rewrite Ech.
+    + apply check_child_none in Ech; auto; [|lia]. rewrite Ech.
       destruct (add_child_spec t (pad32 nm) child HW ltac:(unfold FLOAT_EXACT; lia)) as (t' & Ea & HW' & Hch & C1 & C2 & C3).
       rewrite Ea. exists t'. split; auto. split; auto.
       pose proof (wfc_num _ HW') as Hnum'.
